@@ -17,7 +17,7 @@ The numeric conversions (`Str2Type<T>` = dmlc::strtof / ParseUnsignedInt, libc `
 cell conversion dmlc::strtof / libc strtoll) are the parameter `conv`; values are bit patterns
 (`Nat`): binary32 for `real_t`, two's complement for the integer cell types.
 
-`Fixes` says which of the repairs of findings C11-F1..F4 the source carries (read off the source by
+`Fixes` says which of the repairs of findings C11-F1..F5 the source carries (read off the source by
 `Gen.Parse.fix*`), so the same model follows the pinned and the repaired code.
 -/
 import DmlcModel.Basic
@@ -40,13 +40,14 @@ structure Fixes where
   qidGuard : Bool
   svmEolSkip : Bool
   csvBlankGuard : Bool
+  csvBomGuard : Bool
   deriving DecidableEq, Repr
 
 def Fixes.current : Fixes :=
   ⟨Gen.Parse.fixPairGuard, Gen.Parse.fixTripleGuard, Gen.Parse.fixQidGuard, Gen.Parse.fixSvmEolSkip,
-   Gen.Parse.fixCsvBlankGuard⟩
-def Fixes.pinned : Fixes := ⟨false, false, false, false, false⟩
-def Fixes.repaired : Fixes := ⟨true, true, true, true, true⟩
+   Gen.Parse.fixCsvBlankGuard, Gen.Parse.fixCsvBomGuard⟩
+def Fixes.pinned : Fixes := ⟨false, false, false, false, false, false⟩
+def Fixes.repaired : Fixes := ⟨true, true, true, true, true, true⟩
 
 /-- the numeric conversions, started at a position of `mem` -/
 structure Conv where
@@ -426,6 +427,16 @@ def csvLoop (fx : Fixes) (conv : Conv) (prm : CsvParam) (mem : Bytes) (stop : Na
   | fuel + 1, lbegin, c =>
     if lbegin = stop then .ok c else do
     let lbegin := ignoreBOM mem lbegin stop
+    -- repaired source: `if (lbegin == end || *lbegin == '\n' || *lbegin == '\r') { skip EOLs; continue; }`
+    let bomOnly ← if fx.csvBomGuard then
+        (if lbegin = stop then pure true else do
+          let b ← byteAt mem lbegin
+          pure (Gen.Parse.csvLeadIsEol b.toNat))
+      else pure false
+    if bomOnly then do
+      let lbegin ← scan (fun b => Gen.Parse.csvLeadIsEol b.toNat) mem stop lbegin
+      csvLoop fx conv prm mem stop fuel lbegin c
+    else do
     let lend ← scan (fun b => Gen.Parse.csvNotEol b.toNat) mem stop (lbegin + 1)
     let l ← csvCells fx conv prm mem lend (lend + 1 - lbegin) lbegin {}
     let lend ← scanRd (fun b => Gen.Parse.csvTrailIsEol b.toNat) mem stop lend
